@@ -37,13 +37,14 @@ def ring1(ctx, b):
             for (mode, npre, sp) in [(0, 0, 0), (0, 0, 20), (1, 2, 0), (1, 3, 10)]:
                 out = os.path.join(wd, "p%d.ndjson" % n)
                 seed0 = ctx.seed % 100000 + n * 7919
-                p = subprocess.run([prog, out, str(P), str(J), str(ordered), str(NC), str(runs), str(seed0), str(sp), str(mode), str(npre)],
+                conc = 1 if (NC > 1 and n % 2 == 1) else 0        # every client with a caller thread of its own / one caller thread
+                p = subprocess.run([prog, out, str(P), str(J), str(ordered), str(NC), str(runs), str(seed0), str(sp), str(mode), str(npre), str(conc)],
                                    stdout=subprocess.PIPE, stderr=subprocess.PIPE, text=True, timeout=600)
                 ctx.add("schedules", runs)
                 ctx.add("pool_configs", 1)
                 ok, depth, r = core.validate_trace(out, "Trace_Pool", timeout=900)
                 ctx.add("trace_events", sum(1 for _ in open(out)))
-                cfgd = {"max": P, "jobs": J, "clients": NC, "ordered": ["no", "yes", "client 1 only"][ordered], "mode": mode, "npreempt": npre, "spurious_pct": sp, "seed0": seed0}
+                cfgd = {"max": P, "jobs": J, "clients": NC, "ordered": ["no", "yes", "client 1 only"][ordered], "mode": mode, "npreempt": npre, "spurious_pct": sp, "seed0": seed0, "caller_threads": NC if conc else 1}
                 if n == 0:
                     ctx.sample({"ring": 1, "cfg": cfgd, "events": [json.loads(x) for x in open(out).readlines()[:12]]})
                 if p.returncode != 0 or not ok:
@@ -75,12 +76,13 @@ def ring1_systematic(ctx, b):
         plan += [(2, 3, 1, 1, 2), (2, 3, 0, 1, 2), (3, 3, 0, 1, 2), (2, 2, 1, 2, 2), (3, 4, 1, 1, 1)]
     for n, (P, J, ordered, NC, bound) in enumerate(plan):
         out = os.path.join(wd, "s%d.ndjson" % n)
-        p = subprocess.run([prog, out, "systematic", str(P), str(J), str(ordered), str(NC), str(bound)], stdout=subprocess.PIPE, stderr=subprocess.PIPE, text=True, timeout=3000)
+        conc = 1 if (NC > 1 and n % 2 == 1) else 0
+        p = subprocess.run([prog, out, "systematic", str(P), str(J), str(ordered), str(NC), str(bound), str(conc)], stdout=subprocess.PIPE, stderr=subprocess.PIPE, text=True, timeout=3000)
         m = __import__("re").search(r"systematic: (\d+) schedules", p.stderr)
         nsch = int(m.group(1)) if m else 0
         ctx.add("schedules", nsch)
         ctx.add("systematic_schedules", nsch)
-        cfgd = {"max": P, "jobs": J, "clients": NC, "ordered": ["no", "yes", "client 1 only"][ordered], "preemption_bound": bound}
+        cfgd = {"max": P, "jobs": J, "clients": NC, "ordered": ["no", "yes", "client 1 only"][ordered], "preemption_bound": bound, "caller_threads": NC if conc else 1}
         ok, depth, r = core.validate_trace(out, "Trace_Pool", timeout=3000)
         if p.returncode != 0 or not ok:
             recs = [json.loads(x) for x in open(out)]
